@@ -47,6 +47,18 @@ print('value of simplified : 0x%%x' %% v2)
 sys.exit(1 if v1 != v2 else 0)
 '''
 
+HISTORY_REPLAY = '''
+import sys, os
+sys.path.insert(0, %(verif)r); sys.path.insert(0, %(repo)r)
+sys.dont_write_bytecode = True
+sys.setrecursionlimit(10000)
+from bounded import gen as _gen
+from miasmx.expression.expression_helper import expr_simp as _simp
+for _d in %(hist)r:
+    try: _simp(_gen.build(_d))
+    except Exception: pass
+'''
+
 class _Timeout(Exception):
     pass
 def _alarm(sig, frm):
@@ -154,6 +166,7 @@ def _work(batch):
         elif status == 'downgraded':
             out['down'] += 1
         else:
+            if wit is not None: wit = dict(wit, pos=out['n'] - 1)
             out['fails'].append((gen.dstr(d), status, clause, detail, wit))
     out['secs'] = time.time() - t0
     return out
@@ -227,7 +240,7 @@ def main(argv):
     secs = sum(r['secs'] for r in results)
     run.bulk('expr_simp trees', n_ok, 'SMT-shape', 'z3', secs, DISCHARGED)
     run.bulk('expr_simp trees (solver unknown; 200 random valuations)', sum(r['down'] for r in results), 'BND', 'cpython-random', 0.0, DOWNGRADED)
-    for r in results:
+    for bi, r in enumerate(results):
         for (k, status, clause, detail, wit) in r['fails']:
             oid = 'C05:expr_simp[%s]:%s' % (k, clause)
             if status == 'engine':
@@ -247,6 +260,16 @@ def main(argv):
                 rp = run.write_replay(oid, {'obligation': oid, 'detail': detail}, script)
                 rc, outp = common.native_run(rp, timeout=60)
                 confirmed = rc == 1
+                if not confirmed and rc == 0 and wit.get('pos') is not None:
+                    # correct in a fresh process, wrong in the worker: the result depends on the trees simplified before it in the same
+                    # process.  Replay the worker's history up to the failing tree.
+                    hist = batches[bi][:wit['pos']]
+                    script2 = HISTORY_REPLAY % dict(verif=common.VERIF, repo=common.REPO, hist=hist) + script.split("sys.setrecursionlimit(10000)", 1)[1]
+                    rp = run.write_replay(oid, {'obligation': oid, 'detail': detail + ' [only after the %d trees simplified before it in the same process]' % len(hist)}, script2)
+                    rc, outp = common.native_run(rp, timeout=300)
+                    confirmed = rc == 1
+                    if confirmed:
+                        detail += ' -- only after %d other trees were simplified in the same process (history-dependent result)' % len(hist)
                 if not confirmed:
                     run.ob(oid, ENGINE_ERR, 'SMT-shape', 'z3', detail='native replay does not confirm (rc=%s): %s | %s' % (rc, detail, outp[-300:]))
                     continue
